@@ -191,3 +191,46 @@ func (b *BadLbuf) PopBadL2() (*lnode, error) {
 	}
 	return n, nil
 }
+
+// ---- J2 ---------------------------------------------------------------------------------------------------------------
+
+type GoodJ2 struct {
+	init bool
+	last int64
+}
+
+func (u *GoodJ2) Unwrap(i uint16) int64 {
+	if !u.init {
+		u.init = true
+		u.last = int64(i)
+		return u.last
+	}
+	lw := uint16(u.last)
+	delta := int64(i - lw)
+	if i-lw >= 32768 && delta > 0 && u.last+delta-65536 >= 0 {
+		delta -= 65536
+	}
+	u.last += delta
+	return u.last
+}
+
+type BadJ2 struct {
+	init bool
+	last int64
+}
+
+// BadJ2 steps backwards without checking that the result stays non-negative.
+func (u *BadJ2) Unwrap(i uint16) int64 {
+	if !u.init {
+		u.init = true
+		u.last = int64(i)
+		return u.last
+	}
+	lw := uint16(u.last)
+	delta := int64(i - lw)
+	if i-lw >= 32768 && delta > 0 {
+		delta -= 65536
+	}
+	u.last += delta
+	return u.last
+}
